@@ -53,6 +53,14 @@ def _base_cfg(fam, importer=False, mode=None):
         e2["targets"], e2["sensors"] = eng["targets"][1:], eng["sensors"][2:]
         eng["targets"], eng["sensors"] = eng["targets"][:1], eng["sensors"][:2]
         cfg["engines"] = [eng, e2]
+    if fam.get("add_at"):
+        # a target joins the scenario mid-run (public target_addition event) in the source run AND in every variant
+        from harness.drivers import c01
+        _ecfg, _meta = c01.build_case({"start": fam["start"], "step": fam["step"], "nsteps": fam["nsteps"], "seed": 1,
+                                       "events": [{"kind": "addTarget", "t0": (fam["add_at"] - 1) * fam["step"] + 1}]})
+        ev = _ecfg["events"][0]
+        ev["tasking_engine_id"] = cfg["engines"][0]["unique_id"]
+        cfg["events"] = [ev]
     if importer:
         cfg["propagation"]["target_realtime_propagation"] = "t" not in mode
         cfg["propagation"]["sensor_realtime_propagation"] = "s" not in mode
@@ -135,6 +143,11 @@ def _run_variant(fam, var, src, workdir):
     cfg = _base_cfg(fam, importer=True, mode=var["mode"])
     tids = [t["id"] for e in cfg["engines"] for t in e["targets"]]
     sids = [s["id"] for e in cfg["engines"] for s in e["sensors"]]
+    born = {}
+    if fam.get("add_at"):
+        from harness.drivers import c01
+        tids = tids + [c01.NEW_TARGET_ID]
+        born[c01.NEW_TARGET_ID] = fam["add_at"]
     imported = (tids if "t" in var["mode"] else []) + (sids if "s" in var["mode"] else [])
     A = lambda i: f"a{i}"  # noqa: E731
     # the observation table only matters when observations are imported
@@ -142,7 +155,7 @@ def _run_variant(fam, var, src, workdir):
               "targets": [A(i) for i in tids],
               "rows": sorted([A(a), k] for (a, k) in rows if k >= 1),
               "obs": sorted([k, A(t), A(s)] for (k, t, s) in obs if k >= 1),
-              "nsteps": fam["nsteps"]}]
+              "nsteps": fam["nsteps"], "born": [[A(i), born.get(i, 0)] for i in tids + sids]}]
     state = {"k": 0, "raised": False, "updates": {}}
     orig_import = EphemerisImporter.importEphemerides
     orig_gen = eu.EstUpdateRegistration.generateSubmission
@@ -237,7 +250,9 @@ def _run_family(fam):
         for var in fam["variants"]:
             v = dict(var)
             # symbolic gap targets -> real ids
-            v["gaps"] = [((tids if kind == "t" else sids)[idx], j) for kind, idx, j in var.get("gaps", [])]
+            from harness.drivers import c01 as _c01
+            v["gaps"] = [(_c01.NEW_TARGET_ID if kind == "added" else (tids if kind == "t" else sids)[idx], j)
+                         for kind, idx, j in var.get("gaps", [])]
             out.append(_run_variant(fam, v, src, workdir))
         return {"family": {k: v for k, v in fam.items() if k != "variants"}, "runs": out}
     finally:
@@ -266,6 +281,10 @@ def make_families(ctx: Ctx, rng):
         variants.append({"name": "thin_obs3_extras", "mode": "o", "drop_obs": 3, "extras": 1})
         variants.append({"name": "extras_gap", "mode": "ts", "extras": 2, "extras_gap": 2})
         fams.append({"start": start, "step": step, "nsteps": n, "nt": 2, "ns": 4, "variants": variants})
+    # a target added mid-run by an event while targets are imported: it must be registered with the importer as well
+    fams.append({"start": "2018-12-01T12:00:00", "step": 60, "nsteps": 4, "nt": 1, "ns": 2, "add_at": 2,
+                 "variants": [{"name": "exact_t_added", "mode": "t"}, {"name": "superset_ts_added", "mode": "ts", "extras": 2},
+                              {"name": "gap_added_last", "mode": "t", "gaps": [["added", 0, 4]], "extras": 1}]})
     # two engines (disjoint networks) importing observations
     fams.append({"start": "2018-12-01T12:00:00", "step": 60, "nsteps": 3, "nt": 2, "ns": 4, "two_engines": True,
                  "variants": [{"name": "exact_tso_2eng", "mode": "tso"}, {"name": "exact_o_2eng", "mode": "o"},
